@@ -15,6 +15,30 @@ type cloneX struct {
 	n   types.Object
 	out types.Object
 	evs []Event
+	// valueCopy: the case starts with `out := *n` (every field copied shallowly; reference fields
+	// share storage with the original until they are overwritten) and returns &out
+	valueCopy bool
+}
+
+// freshEmpty: an expression that is a new empty slice: T(nil), T{}, make(T, 0[, cap]).
+func (c *Ctx) freshEmpty(e ast.Expr) bool {
+	switch v := ast.Unparen(e).(type) {
+	case *ast.CompositeLit:
+		_, isSlice := c.Info.TypeOf(v).Underlying().(*types.Slice)
+		return isSlice && len(v.Elts) == 0
+	case *ast.CallExpr:
+		if tv, ok := c.Info.Types[v.Fun]; ok && tv.IsType() && len(v.Args) == 1 {
+			_, isSlice := tv.Type.Underlying().(*types.Slice)
+			return isSlice && c.Info.Types[v.Args[0]].IsNil()
+		}
+		if id, ok := v.Fun.(*ast.Ident); ok && id.Name == "make" && len(v.Args) >= 2 {
+			if _, isB := c.Info.Uses[id].(*types.Builtin); isB {
+				tv := c.Info.Types[v.Args[1]]
+				return tv.Value != nil && tv.Value.String() == "0"
+			}
+		}
+	}
+	return false
 }
 
 func ExtractClone(c *Ctx) (*Sibling, error) {
@@ -113,8 +137,13 @@ func (x *cloneX) stmt(s ast.Stmt, g gctx) {
 		ex := ""
 		if len(s.Results) == 1 {
 			ex = c.ExprStr(s.Results[0])
-			if id, ok := s.Results[0].(*ast.Ident); ok && x.out != nil && c.ObjOf(id) == x.out {
+			if id, ok := s.Results[0].(*ast.Ident); ok && x.out != nil && c.ObjOf(id) == x.out && !x.valueCopy {
 				ex = "out"
+			}
+			if u, ok := s.Results[0].(*ast.UnaryExpr); ok && u.Op == token.AND && x.valueCopy {
+				if id, ok := u.X.(*ast.Ident); ok && c.ObjOf(id) == x.out {
+					ex = "out"
+				}
 			}
 		}
 		x.emit(Event{Kind: KRet, Expr: ex}, g, s.Pos())
@@ -177,6 +206,16 @@ func (x *cloneX) assign(s *ast.AssignStmt, g gctx) {
 				x.emit(Event{Kind: KAlloc, Field: tn}, g, s.Pos())
 				return
 			}
+			// out := *n
+			if st, ok := rhs.(*ast.StarExpr); ok {
+				if p, okp := c.Path(st.X, x.n); okp && p == "" {
+					_, tn := NamedTypeName(c.Info.TypeOf(rhs))
+					x.out = c.Info.Defs[id]
+					x.valueCopy = true
+					x.emit(Event{Kind: KAlloc, Field: tn, Name: "value-copy"}, g, s.Pos())
+					return
+				}
+			}
 		}
 		x.other(s, g)
 		return
@@ -217,9 +256,19 @@ func (x *cloneX) assign(s *ast.AssignStmt, g gctx) {
 					if okb && oks {
 						ev.Src = src
 						ev.Expr = "append(out." + base + ", n." + src + "...)"
-						if base == field {
+						if base == field && !x.valueCopy {
 							ev.Name = "fresh-append"
 						}
+						if x.valueCopy {
+							ev.Expr += " (out is a value copy of *n: out." + base + " is n's own list)"
+						}
+						x.emit(ev, g, s.Pos())
+						return
+					}
+					if oks && c.freshEmpty(ap.Args[0]) {
+						ev.Src = src
+						ev.Expr = "append(<new empty list>, n." + src + "...)"
+						ev.Name = "fresh-append"
 						x.emit(ev, g, s.Pos())
 						return
 					}
